@@ -113,3 +113,9 @@ claim("C06",
   "Histories of 5-25 blocks over all custom modules (several provers with equal sizes credited in the same reward block with live gauges, height-seeded attestation/report shuffles, ACL edits with several ids, bids, notifications, adversarial reflective messages) are generated while executing on one app; the recorded signed bytes are replayed on a second instance (every case), on a third one 1.1 s later (sample) and in a fresh child process of the same binary (every 10th case quick, every case thorough). AppHash, per-tx code/codespace/gas/data, and the ordered event lists of BeginBlock, every DeliverTx and EndBlock must be identical.",
   "Falsification only; same binary and machine (no second architecture / Go version / libwasmvm available); no wasm contract execution.",
   "DESIGN.md section 4 C06")
+
+claim("C19",
+  "round-trip property test (rapid): generated ABCI histories populate all record kinds; export -> validate -> init a fresh app -> compare raw KV dumps per store/prefix, params and the re-exported genesis",
+  "For each generated history the six custom modules are exported with their own ExportGenesis, validated, imported into a fresh app through InitChain, and compared with the source: every key/value of every custom store (grouped by prefix), params, and a second export. Four record kinds have no field in the genesis protos (storage FileProof, rns PrimaryName, notifications block entries, jklmint minted blocks); they are recorded in known_findings.json, replayed as a plain scenario on every run (KNOWN-FINDING lines) and excluded - counted - from the search so that any other loss is still reported.",
+  "ActiveProviders/value/ is treated as unobservable (written by InitGenesis, read by nothing); bank/auth state is not carried over; the known findings cannot be repaired here because protoc/buf are absent.",
+  "DESIGN.md section 4 C19")
